@@ -41,6 +41,12 @@ Stmt(t) ==
       [] t = "AP1c" -> [k |-> "apply", n |-> "m1", as |-> <<I("c")>>] [] t = "AP1b" -> [k |-> "apply", n |-> "m1", as |-> <<I("b")>>]
       [] t = "AP1_" -> [k |-> "apply", n |-> "m1", as |-> <<>>]         \* too few arguments
       [] t = "AP1k" -> [k |-> "apply", n |-> "m1", as |-> <<[k |-> "code", b |-> <<Dat("db", N(9))>>]>>]
+      \* a code block in the first position, a value after it (and the other way round)
+      [] t = "AP2kn" -> [k |-> "apply", n |-> "m2", as |-> <<[k |-> "code", b |-> <<Dat("db", N(9))>>], N(7)>>]
+      [] t = "AP2nk" -> [k |-> "apply", n |-> "m2", as |-> <<N(7), [k |-> "code", b |-> <<Dat("db", N(9))>>]>>]
+      \* a named scope with one label, as one statement
+      [] t = "Nla" -> [k |-> "scope", n |-> "n", b |-> <<Lab("a")>>]
+      [] t = "SPa" -> [k |-> "splice", p |-> "a"]
       [] t = "AP2na" -> [k |-> "apply", n |-> "m2", as |-> <<N(1), I("a")>>]      \* second argument named like the first parameter
       [] t = "AP2ab" -> [k |-> "apply", n |-> "m2", as |-> <<I("b"), N(2)>>]
       [] t = "APx" -> [k |-> "apply", n |-> "nosuchmacro", as |-> <<>>]
@@ -69,16 +75,23 @@ AlphaSeq ==
       [] Family = "loopleak" -> <<"FOR02{", "}", "DBi", "Ei7", "{", "DB">>
       \* a deferred (forward-label) argument is evaluated at the call site, not inside the application
       [] Family = "deferarg" -> <<"M1{", "}", "DLp", "La", "AP1a", "{", "DB">>
+      [] Family = "splice2" -> <<"M2{", "}", "SPa", "SPp", "DBp", "DBa", "AP2kn", "AP2nk", "DB">>
+      \* a named scope declared by a macro body exports into the application, not beyond it
+      [] Family = "macroscope" -> <<"M0{", "}", "Nla", "DLna", "AP0", "DB", "{">>
+      \* := defines in the scope it stands in: an outer constant of the same name is untouched
+      [] Family = "assignleak" -> <<"C3", "C10", "FOR02{", "{", "M0{", "AP0", "}", "DLc", "FOR0c{", "IFc{", "DB">>
+      \* a loop variable named like an outer 16-bit constant: the body's size differs between the passes
+      [] Family = "shadowloop2" -> <<"C1234", "FORc02{", "}", "LDc", "La", "DLa", "DB">>
       [] Family = "tiny"   -> <<"La", "DB", "DLa", "{", "}", "S3">>
 Alphabet == Range(AlphaSeq)
 TokIndex(t) == CHOOSE j \in 1..Len(AlphaSeq) : AlphaSeq[j] = t
 
 \* ---- token string -> nested program body -------------------------------------------------
-Openers == {"{", "N{", "M0{", "M1{", "M2{", "IF1{", "IF0{", "IFc{", "IFu{", "IFm{", "FOR02{", "FOR13{", "FOR20{", "FOR0c{", "FOR0p{"}
+Openers == {"{", "N{", "M0{", "M1{", "M2{", "IF1{", "IF0{", "IFc{", "IFu{", "IFm{", "FOR02{", "FOR13{", "FOR20{", "FOR0c{", "FOR0p{", "FORc02{"}
 IfCond(t) == CASE t = "IF1{" -> N(1) [] t = "IF0{" -> N(0) [] t = "IFc{" -> I("c") [] t = "IFu{" -> I("undefinedname")
                [] t = "IFm{" -> N(0 - 1)
 ForLo(t) == CASE t = "FOR13{" -> N(1) [] t = "FOR20{" -> N(2) [] OTHER -> N(0)
-ForHi(t) == CASE t = "FOR02{" -> N(2) [] t = "FOR13{" -> N(3) [] t = "FOR20{" -> N(0) [] t = "FOR0c{" -> I("c") [] t = "FOR0p{" -> I("p")
+ForHi(t) == CASE t \in {"FOR02{", "FORc02{"} -> N(2) [] t = "FOR13{" -> N(3) [] t = "FOR20{" -> N(0) [] t = "FOR0c{" -> I("c") [] t = "FOR0p{" -> I("p")
 RECURSIVE TreeFrom(_, _)
 \* parses ts from p up to the matching close: [body, next, term]; term is "}" / "}E{" (else) / "end"
 TreeFrom(ts, p) ==
@@ -96,7 +109,7 @@ TreeFrom(ts, p) ==
                             [] t = "M2{" -> [k |-> "macro", n |-> "m2", ps |-> <<"a", "p">>, b |-> inner.body]
                             [] t \in {"IF1{", "IF0{", "IFc{", "IFu{", "IFm{"} ->
                                    [k |-> "if", e |-> IfCond(t), t |-> inner.body, hasf |-> inner.term = "}E{", f |-> alt.body]
-                            [] OTHER -> [k |-> "for", v |-> "i", a |-> ForLo(t), b |-> ForHi(t), body |-> inner.body]
+                            [] OTHER -> [k |-> "for", v |-> IF t = "FORc02{" THEN "c" ELSE "i", a |-> ForLo(t), b |-> ForHi(t), body |-> inner.body]
               IN [body |-> <<node>> \o rest.body, next |-> rest.next, term |-> rest.term]
     ELSE LET rest == TreeFrom(ts, p + 1) IN [body |-> <<Stmt(ts[p])>> \o rest.body, next |-> rest.next, term |-> rest.term]
 
